@@ -131,11 +131,19 @@ def run_validate(image):
         return ("foreign", type(ex).__name__, str(ex)[:100])
 
 
+_VBASE = {}
+
+
 def judge_validate(scn):
     """scn: blocks, payload_len, fault (None | truncate | substitute); content 'pos' (default) or 'x40'
     (payload made of 0x40 bytes, indistinguishable from trailers and fill)"""
-    data = posbytes(0, scn["payload_len"]) if scn.get("content", "pos") == "pos" else b"\x40" * scn["payload_len"]
-    base = refmodel.block(data)
+    key = (scn["payload_len"], scn.get("content", "pos"))
+    base = _VBASE.get(key)
+    if base is None:
+        data = posbytes(0, scn["payload_len"]) if key[1] == "pos" else b"\x40" * scn["payload_len"]
+        if len(_VBASE) > 8:
+            _VBASE.clear()
+        base = _VBASE[key] = refmodel.block(data)
     fault = scn.get("fault")
     image = apply_fault(base, fault) if fault else base
     for f2 in scn.get("faults2") or []:
